@@ -212,6 +212,60 @@ struct ItMon {
    bool live, re, fin; std::set<int> seen, must; ItObs prev;
    ItMon() : live(false), re(false), fin(false) {}
 };
+// Clauses: (1) what an iterator shows is an entry of its table or the copy it kept of the entry it was on (for the calls that empty a
+// table: or a copy of an entry that call removed); (2) ++ lands on an existing entry; (3) a traversal that no reordering operation crossed
+// visits no entry twice and, when it ends, has visited every entry that was ahead of its start and present throughout.
+struct Monitor {
+   ItMon m[MAXIT]; int tab[MAXIT]; KV before[3];
+   Monitor() {for (int i=0; i<MAXIT; i++) tab[i] = 0;}
+   // after[1], after[2]: contents of the two tables now; obs: what the iterators show now; mv: a reordering operation (may have) relinked an entry
+   void Step(int op, long a, long b, long c, const KV * after, const ItObs * obs, int nIt, bool mv, std::vector<std::string> & viol)
+   {
+      char buf[400];
+      for (int i=0; i<nIt; i++) {
+         const ItObs & real = obs[i]; ItMon & mm = m[i]; const int tb = tab[i];
+         if (op < O_Get) {
+            if ((mm.live)&&(tb != 0)) {
+               const bool detach = (((op == O_Clear)||(op == O_Destroy)||(op == O_AssignFrom))&&(tb == 1))||((op == O_AssignTo)&&(tb == 2));
+               const int tc = (op == O_Swap) ? (3-tb) : tb;     // where the contents the iterator was registered with are now
+               if (detach) {mm.must.clear(); mm.seen.clear(); tab[i] = 0;}
+               else {
+                  for (size_t k=0; k<before[tb].size(); k++) if (!HasKey(after[tc], before[tb][k].first)) {mm.must.erase(before[tb][k].first); mm.seen.erase(before[tb][k].first);}
+                  if ((mv)||(Reordered(before[tb], after[tc]))) mm.re = true;
+                  tab[i] = tc;
+               }
+               if ((real.h == 1)&&(!(real == mm.prev))&&(!HasPair(after[tc], real.k, real.v))&&(!HasPair(before[tb], real.k, real.v))) {
+                  snprintf(buf, sizeof(buf), "after %s(%ld,%ld,%ld) iterator %d shows (%d,%d): neither an entry of its table nor the copy of the entry it was on", OPN[op], a, b, c, i+1, real.k, real.v); viol.push_back(buf);}
+            }
+            else if ((mm.live)&&(real.h == 1)&&(!(real == mm.prev))) {snprintf(buf, sizeof(buf), "after %s(%ld,%ld,%ld) iterator %d, which is registered with no table, changed to (%d,%d)", OPN[op], a, b, c, i+1, real.k, real.v); viol.push_back(buf);}
+         }
+         else if ((op >= O_ItNew)&&((int) a == i+1)&&(op != O_ItCopy)) {
+            if ((op == O_ItNew)||(op == O_ItNewAt)) {
+               mm = ItMon(); mm.live = true; tab[i] = (real.h == 1) ? 1 : 0; const int d = (int)((op == O_ItNew) ? b : c);
+               if (real.h == 1) {size_t at = 0; while ((at < after[1].size())&&(after[1][at].first != real.k)) at++; for (size_t k=0; k<after[1].size(); k++) if ((d == 0) ? (k >= at) : (k <= at)) mm.must.insert(after[1][k].first);}
+            }
+            if (op == O_ItDel) {mm = ItMon(); tab[i] = 0;}
+            if ((op == O_ItRet)||(op == O_ItFlip)) mm.re = true;
+            if ((op == O_ItNew)||(op == O_ItNewAt)||(op == O_ItAdv)) {
+               if (real.h == 1) {
+                  if ((!HasPair(after[1], real.k, real.v))&&(!HasPair(after[2], real.k, real.v))) {snprintf(buf, sizeof(buf), "%s: iterator %d landed on (%d,%d), which is not an entry of a table", OPN[op], i+1, real.k, real.v); viol.push_back(buf);}
+                  else if (!mm.re) {
+                     if (mm.seen.count(real.k)) {snprintf(buf, sizeof(buf), "iterator %d visits the entry with key %d twice in a traversal that no reordering crossed", i+1, real.k); viol.push_back(buf);}
+                     mm.seen.insert(real.k);
+                  }
+               }
+               else if ((real.h == 0)&&(!mm.re)) {
+                  mm.fin = true;
+                  for (std::set<int>::const_iterator q = mm.must.begin(); q != mm.must.end(); ++q) if (!mm.seen.count(*q)) {snprintf(buf, sizeof(buf), "iterator %d finished its traversal (no reordering crossed it) without visiting key %d, which was present throughout", i+1, *q); viol.push_back(buf); break;}
+               }
+            }
+         }
+         else if ((op == O_ItCopy)&&((int) b == i+1)) {mm = m[a-1]; tab[i] = tab[a-1];}
+         mm.prev = real; if (real.h < 0) mm.live = false;
+      }
+      before[1] = after[1]; before[2] = after[2];
+   }
+};
 
 template<class TableT, class HashF> static int Replay(const char * inFile, const char * outFile, uint32 P, uint32 slack, const char * progressFile)
 {
@@ -224,7 +278,7 @@ template<class TableT, class HashF> static int Replay(const char * inFile, const
       const mj::Value & st = beh["steps"]; nb++;
       if (progressFile) {FILE * pf = fopen(progressFile, "w"); if (pf) {fprintf(pf, "%lld\n", (long long) beh["id"].i()); fclose(pf);}}
       R.Reset();
-      KV before[3], after[3]; ItMon mon[MAXIT]; int tabOf[MAXIT]; for (int i=0; i<MAXIT; i++) tabOf[i] = 0;
+      KV after[3]; Monitor mon;
       std::vector<std::string> viol; std::string drift; size_t failStep = 0; bool stop = false, wasCut = false;
       for (size_t si=0; (si<st.size())&&(!stop); si++) {
          const mj::Value & s = st[si]; const int op = OpByName(s["op"].str());
@@ -242,55 +296,15 @@ template<class TableT, class HashF> static int Replay(const char * inFile, const
          for (int n=1; n<=2; n++) if (got[n] != after[n]) {snprintf(buf, sizeof(buf), "after %s(%ld,%ld,%ld) %s table holds %s, ordered map holds %s", OPN[op], a, b, c, (n == 1) ? "the" : "the other", KVStr(got[n]).c_str(), KVStr(after[n]).c_str()); viol.push_back(buf); stop = true;}
          if (stop) break;
          {const long sl = (long) R.tab[0]->GetNumAllocatedItemSlots(); if (sl > maxSlots) maxSlots = sl; if (sl < minSlots) minSlots = sl;}
-         // iterators: monitor first, exact comparison second
-         const mj::Value & eit = s["it"]; const mj::Value & etab = s["itab"]; const bool mv = s["mv"].truthy();
-         const bool tableOp = (op < O_Get); bool exact = true; std::string exactMsg;
-         for (int i=0; (i<MAXIT)&&(i<(int) eit.size()); i++) {
-            ItObs real = R.See(i), exp; exp.h = (int) eit[i]["h"].i(); exp.k = (int) eit[i]["k"].i(); exp.v = (int) eit[i]["v"].i();
-            ItMon & m = mon[i]; const int tb = tabOf[i]; const int ta = (int) etab[i].i(); itChecks++;
-            if (tableOp) {
-               if ((m.live)&&(tb != 0)) {
-                  const bool detach = (((op == O_Clear)||(op == O_Destroy)||(op == O_AssignFrom))&&(tb == 1))||((op == O_AssignTo)&&(tb == 2));
-                  const int tc = (op == O_Swap) ? (3-tb) : tb;     // where the contents the iterator was registered with are now
-                  if (detach) {m.must.clear(); m.seen.clear();}
-                  else {
-                     for (size_t k=0; k<before[tb].size(); k++) if (!HasKey(after[tc], before[tb][k].first)) {m.must.erase(before[tb][k].first); m.seen.erase(before[tb][k].first);}
-                     if ((mv)||(Reordered(before[tb], after[tc]))) m.re = true;
-                  }
-                  if ((real.h == 1)&&(!(real == m.prev))&&(!HasPair(after[tc], real.k, real.v))&&(!HasPair(before[tb], real.k, real.v))) {
-                     snprintf(buf, sizeof(buf), "after %s(%ld,%ld,%ld) iterator %d shows (%d,%d): neither an entry of its table nor the copy of the entry it was on", OPN[op], a, b, c, i+1, real.k, real.v); viol.push_back(buf);}
-               }
-               else if ((m.live)&&(real.h == 1)&&(!(real == m.prev))) {snprintf(buf, sizeof(buf), "after %s(%ld,%ld,%ld) detached iterator %d changed to (%d,%d)", OPN[op], a, b, c, i+1, real.k, real.v); viol.push_back(buf);}
-            }
-            else if ((op >= O_ItNew)&&((int) a == i+1)&&(op != O_ItCopy)) {
-               const KV & cur = after[(ta != 0) ? ta : ((tb != 0) ? tb : 1)];
-               if ((op == O_ItNew)||(op == O_ItNewAt)) {
-                  m = ItMon(); m.live = true; const int d = (int)((op == O_ItNew) ? b : c);
-                  if (exp.h == 1) {size_t at = 0; while ((at < after[1].size())&&(after[1][at].first != exp.k)) at++; for (size_t k=0; k<after[1].size(); k++) if ((d == 0) ? (k >= at) : (k <= at)) m.must.insert(after[1][k].first);}
-               }
-               if (op == O_ItDel) m = ItMon();
-               if ((op == O_ItRet)||(op == O_ItFlip)) m.re = true;
-               if ((op == O_ItNew)||(op == O_ItNewAt)||(op == O_ItAdv)) {
-                  if (real.h == 1) {
-                     if ((!HasPair(after[1], real.k, real.v))&&(!HasPair(after[2], real.k, real.v))) {snprintf(buf, sizeof(buf), "%s: iterator %d landed on (%d,%d), which is not an entry of a table", OPN[op], i+1, real.k, real.v); viol.push_back(buf);}
-                     else if (!m.re) {
-                        if (m.seen.count(real.k)) {snprintf(buf, sizeof(buf), "iterator %d visits the entry with key %d twice in a traversal that no reordering crossed", i+1, real.k); viol.push_back(buf);}
-                        m.seen.insert(real.k);
-                     }
-                  }
-                  else if ((real.h == 0)&&(!m.re)) {
-                     m.fin = true;
-                     for (std::set<int>::const_iterator q = m.must.begin(); q != m.must.end(); ++q) if (!m.seen.count(*q)) {snprintf(buf, sizeof(buf), "iterator %d finished its traversal (no reordering crossed it) without visiting key %d, which was present throughout", i+1, *q); viol.push_back(buf); break;}
-                  }
-               }
-               (void) cur;
-            }
-            else if ((op == O_ItCopy)&&((int) b == i+1)) m = mon[a-1];
-            if (!(real == exp)) {exact = false; if (exactMsg.empty()) {snprintf(buf, sizeof(buf), "after %s(%ld,%ld,%ld) iterator %d shows (has=%d key=%d value=%d), specification expects (has=%d key=%d value=%d)", OPN[op], a, b, c, i+1, real.h, real.k, real.v, exp.h, exp.k, exp.v); exactMsg = buf;}}
-            m.prev = real; if (real.h < 0) m.live = false;
-            tabOf[i] = ta;
+         // iterators: property monitor first, exact comparison with the specification second
+         const mj::Value & eit = s["it"]; const bool mv = s["mv"].truthy(); bool exact = true; std::string exactMsg;
+         const int nIt = (int) muscleMin((size_t) MAXIT, eit.size()); ItObs obs[MAXIT];
+         for (int i=0; i<nIt; i++) obs[i] = R.See(i);
+         mon.Step(op, a, b, c, after, obs, nIt, mv, viol); itChecks += nIt;
+         for (int i=0; i<nIt; i++) {
+            ItObs exp; exp.h = (int) eit[i]["h"].i(); exp.k = (int) eit[i]["k"].i(); exp.v = (int) eit[i]["v"].i();
+            if ((!(obs[i] == exp))&&(exactMsg.empty())) {exact = false; snprintf(buf, sizeof(buf), "after %s(%ld,%ld,%ld) iterator %d shows (has=%d key=%d value=%d), specification expects (has=%d key=%d value=%d)", OPN[op], a, b, c, i+1, obs[i].h, obs[i].k, obs[i].v, exp.h, exp.k, exp.v); exactMsg = buf;}
          }
-         before[1] = after[1]; before[2] = after[2];
          if (!viol.empty()) {if (!exact) viol.push_back(exactMsg); stop = true;}
          else if (!exact) {drift = exactMsg; stop = true;}
       }
@@ -315,6 +329,13 @@ template<class TableT, class HashF> static int Replay(const char * inFile, const
 }
 
 // ------------------------------------------------------------------------------------------------------
+// may this call unlink and relink an entry (a reordering operation in the sense of the property)?  Conservative, by kind of call.
+static bool RelinkKind(int op, bool sorted)
+{
+   if (((op >= O_PutAtFront)&&(op <= O_GetAndMoveToBack))||((op >= O_MoveToFront)&&(op <= O_Reposition))) return true;
+   return (sorted)&&((op <= O_PutOrRemove)||(op == O_PutAll)||(op == O_MoveToTable)||(op == O_AssignFrom)||(op == O_AssignTo));
+}
+
 static const int PLAIN_OPS[] = {O_Put, O_Put, O_Put, O_PutPrev, O_PutIfAbsent, O_GetOrPut, O_PutOrRemove, O_PutAtFront, O_PutAtBack, O_PutBefore, O_PutBehind, O_PutAtPosition,
       O_GetAndMoveToFront, O_GetAndMoveToBack, O_Remove, O_Remove, O_RemoveGet, O_RemoveFirst, O_RemoveLast, O_MoveToFront, O_MoveToBack, O_MoveToBefore, O_MoveToBehind, O_MoveToPosition,
       O_SortByKey, O_SortByValue, O_SortSelf, O_Swap, O_Clear, O_Destroy, O_AssignFrom, O_AssignTo, O_PutAll, O_MoveToTable, O_RemoveAll, O_Intersect, O_EnsureSize, O_ShrinkToFit,
@@ -335,6 +356,7 @@ template<class TableT, class HashF> static int Random(const char * outFile, cons
    for (uint32 run=0; run<runs; run++) {
       std::mt19937 gen(seed*1000003u+run*7919u+17u);
       R.Reset(); fprintf(tf, "{\"op\":\"Reset\"}\n"); lines++;
+      Monitor mon; bool monOn = true;
       // each run has its own temperament: how much it likes to grow / shrink / iterate
       const uint32 growBias = gen()%3;
       for (uint32 n=0; n<nops; n++) {
@@ -383,11 +405,21 @@ template<class TableT, class HashF> static int Random(const char * outFile, cons
             if (violated <= 20) {fprintf(out, "%s\n", mj::ToString(rec).c_str()); fflush(out);}
             break;   // the rest of this run is not to be trusted
          }
+         ItObs obs[MAXIT]; for (int i=0; i<nIt; i++) obs[i] = R.See(i);
+         if (monOn) {
+            KV aft[3]; aft[1] = t1; aft[2] = t2; std::vector<std::string> mviol;
+            mon.Step(op, a, b, c, aft, obs, nIt, RelinkKind(op, sorted), mviol);
+            if (!mviol.empty()) {
+               violated++; monOn = false; char buf[200]; snprintf(buf, sizeof(buf), "run %u call %u: ", run, n);
+               mj::Value rec = mj::Value::Obj(); rec.set("seed", mj::Value::Int(seed)).set("run", mj::Value::Int(run)).set("call", mj::Value::Int(n)); mj::Value va = mj::Value::Arr(); va.push(mj::Value::Str(std::string(buf)+mviol[0])); rec.set("violations", va);
+               if (violated <= 20) {fprintf(out, "%s\n", mj::ToString(rec).c_str()); fflush(out);}
+            }
+         }
          mj::Value ln = mj::Value::Obj();
          ln.set("op", mj::Value::Str(OPN[op])).set("a", mj::Value::Int(a)).set("b", mj::Value::Int(b)).set("c", mj::Value::Int(c)).set("res", mj::Value::Int(res))
            .set("keys", KeysJ(t1, false)).set("vals", KeysJ(t1, true)).set("okeys", KeysJ(t2, false)).set("ovals", KeysJ(t2, true));
          mj::Value ia = mj::Value::Arr();
-         for (int i=0; i<nIt; i++) {const ItObs o = R.See(i); mj::Value r = mj::Value::Obj(); r.set("h", mj::Value::Int(o.h)).set("k", mj::Value::Int((o.h == 1) ? o.k : 0)).set("v", mj::Value::Int((o.h == 1) ? o.v : 0)); ia.push(r); if (o.h >= 0) itLive++;}
+         for (int i=0; i<nIt; i++) {const ItObs & o = obs[i]; mj::Value r = mj::Value::Obj(); r.set("h", mj::Value::Int(o.h)).set("k", mj::Value::Int((o.h == 1) ? o.k : 0)).set("v", mj::Value::Int((o.h == 1) ? o.v : 0)); ia.push(r); if (o.h >= 0) itLive++;}
          ln.set("it", ia); ln.set("run", mj::Value::Int(run)).set("n", mj::Value::Int(n));
          fprintf(tf, "%s\n", mj::ToString(ln).c_str()); lines++;
          if ((long) t1.size() > maxItems) maxItems = (long) t1.size();
